@@ -491,6 +491,7 @@ let () =
   | _ :: "cachekeys" :: cases :: _ ->
     iter_lines cases (fun c ->
       match split_ws c with
+      | ["RELOAD"; _] -> print_endline "RELOAD"        (* judged by the driver: the model resets once per successful load *)
       | [ty; h] ->
         let k = hex_of_bytes (format_key (bytes_of_hex h) (bytes_of_string ty)) in
         Printf.printf "G=%s A=%s\n" k k
